@@ -365,4 +365,28 @@ def inner_limits(run, ctx):
             ok = bool(m) and guarded
         if not ok:
             run.violation(fam, label, fld, H.where(ci), "compile_inner must call %s only with Some(limit) when the user set %s: passing None removes regex-automata's default size limit, so a pattern like \\w{600} builds an unbounded automaton instead of failing" % (meth, fld))
-    run.ok(fam, label, H.where(ci), n, "size limits: default limits of the inner engine stay in force unless the user sets one")
+    # nothing else about the inner engine is configured, anywhere: which captures it tracks, its match kind, its
+    # one-pass / DFA switches decide what it reports (group spans!) or which limits apply
+    allowed = {"Config": {"new", "nfa_size_limit", "dfa_size_limit"}, "Builder": {"new", "configure", "syntax", "build"}}
+    seen = 0
+    for path, fn in sorted(ctx.facts.hir.items()):
+        sp = strip_generics(path)
+        if "tests::" in sp:
+            continue
+        for nd in H.walk(fn["body"]):
+            d = None
+            if nd.get("k") == "MethodCall":
+                d = nd.get("resolved") or nd.get("def") or ""
+            elif nd.get("k") == "Call":
+                d = H.peel(nd["f"]).get("def") or ""
+            if not d:
+                continue
+            m = re.match(r"^regex_automata::meta::(?:regex::)?(Config|Builder)::(\w+)", strip_generics(d))
+            if not m:
+                continue
+            seen += 1
+            if sp != "compile::compile_inner" or m.group(2) not in allowed[m.group(1)]:
+                run.violation(fam, label, "config/%s/%s::%s" % (sp, m.group(1), m.group(2)), H.where(nd),
+                              "%s calls regex-automata's %s::%s: the inner engine may only be configured in compile_inner, and only with the user's size limits and syntax (anything else changes what a delegate reports -- e.g. which capture groups it tracks -- or which limits apply)" % (sp, m.group(1), m.group(2)))
+    run.floor(fam, label, H.where(ci), seen, 4, "calls configuring the inner engine")
+    run.ok(fam, label, H.where(ci), n + seen, "size limits: default limits of the inner engine stay in force unless the user sets one; no other configuration (%d calls)" % seen)
